@@ -4,7 +4,7 @@ CONSTANT MaxCalls = 3
 CONSTANT Ds = {0, 1}
 CONSTANT NegMax = 1
 CONSTANT MaxNow = 2
-CONSTANT Depth = 8
+CONSTANT Depth = 7
 CONSTRAINT Bound
 VIEW View
 INVARIANT ExactlyOnce
